@@ -128,14 +128,15 @@ type Run struct {
 	PS   *gochannel.GoChannel
 	Sub  message.Subscriber // PS possibly wrapped per subscription
 
-	mu         sync.Mutex
-	Pubs       []*PubRec
-	Subs       []*SubRec
-	CloseStart atomic.Uint64
-	CloseEnds  []uint64
-	ClosePanic []string
-	APIPanics  []string
-	Events     atomic.Int64
+	mu                sync.Mutex
+	Pubs              []*PubRec
+	Subs              []*SubRec
+	CloseStart        atomic.Uint64
+	CloseEnds         []uint64
+	ClosePanic        []string
+	OpenAtCloseReturn []string
+	APIPanics         []string
+	Events            atomic.Int64
 
 	pubsDone        chan struct{}
 	consumersActive atomic.Int32
@@ -170,6 +171,13 @@ func (r *Run) panicked(where string, v any) {
 	r.mu.Lock()
 	r.APIPanics = append(r.APIPanics, fmt.Sprintf("%s: %v", where, v))
 	r.mu.Unlock()
+}
+
+// OpenAtClose returns the observations of output channels still open when a Close call returned.
+func (r *Run) OpenAtClose() []string {
+	r.mu.Lock()
+	defer r.mu.Unlock()
+	return append([]string(nil), r.OpenAtCloseReturn...)
 }
 
 // Panics returns recovered panics of API calls.
@@ -501,7 +509,24 @@ func (r *Run) Close(n int) <-chan struct{} {
 				if i%2 == 1 && len(decs) > 0 {
 					decs[i%len(decs)].Close()
 				}
-				r.PS.Close()
+				if err := r.PS.Close(); err == nil {
+					// every bare (undecorated) output channel handed out so far must be closed when Close returns to this caller
+					open := 0
+					for _, s := range r.SubRecs() {
+						if s.Spec.Decorators == 0 && s.ch != nil {
+							select {
+							case <-s.ch:
+							default:
+								open++
+							}
+						}
+					}
+					if open > 0 {
+						r.mu.Lock()
+						r.OpenAtCloseReturn = append(r.OpenAtCloseReturn, fmt.Sprintf("%d output channel(s) were still open when Close call #%d returned", open, i))
+						r.mu.Unlock()
+					}
+				}
 			}()
 			end := vlib.Now()
 			r.mu.Lock()
